@@ -1,3 +1,294 @@
 import FiberModel.DriverUtil
--- stub driver for C14; replaced when the property's model lands
-def main : IO Unit := pure ()
+import FiberModel.C14.Spec
+/-
+Driver for C14. Case fields (after the id):
+  cfg      ext;sttl;maxBytes;expiration;storeHeaders;cacheControl;kg;eg;iv;nx
+  methods  hex list ("-" = default)
+  ops      op|op|…   op = grp;dt;method;keyMat;cc;inv;skip;expGen;status;body;ctype;cenc;headers;hdelay
+  scheds   "-" or grp:t.t.t/grp:t.t
+  obs      o|o|…     o  = x;status;body;ctype;cenc;headers;ran;held | panic | deadlock | skipped
+The model is run with the same `step` function the theorems are about: sequential ops run their
+thread to completion, concurrent groups release threads in the scheduled order (a release runs the
+thread from one yield point – KeyGenerator, origin handler – to the next).
+-/
+open B DriverUtil C14
+
+abbrev E := Except String
+
+def dom (msg : String) : E α := throw s!"outside-domain: {msg}"
+
+def pNat (s : String) (what : String) : E Nat :=
+  match s.toNat? with | some n => pure n | none => dom what
+def pInt (s : String) (what : String) : E Int :=
+  match s.toInt? with | some n => pure n | none => dom what
+def pBit (s : String) (what : String) : E Bool :=
+  if s == "1" then pure true else if s == "0" then pure false else dom what
+def pHex (s : String) (what : String) : E Bytes :=
+  match fromHex s with
+  | some v => if v.all (· < 256) then pure v else dom what
+  | none => dom what
+
+structure DCfg where
+  cfg : Config
+  kg : Bool
+  eg : Bool
+  iv : Bool
+  nx : Bool
+
+structure DOp where
+  grp : Nat
+  dt : Nat
+  hdelay : Nat
+  req : Req
+deriving Inhabited
+
+def hdrVocab : List Bytes := [b "X-A", b "X-B", b "Etag", b "Vary", b "Last-Modified", b "Cache-Control", b "Keep-Alive",
+  b "Upgrade", b "Te", b "Trailers", b "Proxy-Authenticate"]
+def okMethods : List Bytes := [b "GET", b "HEAD", b "POST", b "PUT"]
+
+def parseCfg (s methods : String) : E DCfg := do
+  match s.splitOn ";" with
+  | [ext, sttl, mb, exp, sh, cc, kg, eg, iv, nx] =>
+    let ms ← match hexList methods with | some l => pure l | none => dom "methods"
+    if !ms.all okMethods.contains then dom "method"
+    let cfg : Config := { ext := ← pBit ext "ext", stTTL := ← pBit sttl "sttl", maxBytes := ← pNat mb "maxBytes",
+                          expiration := ← pInt exp "expiration", storeHeaders := ← pBit sh "sh",
+                          cacheControl := ← pBit cc "cc", methods := ms }
+    if cfg.maxBytes ≥ 2 ^ 62 then dom "maxBytes too large"
+    pure { cfg := cfg, kg := ← pBit kg "kg", eg := ← pBit eg "eg", iv := ← pBit iv "iv", nx := ← pBit nx "nx" }
+  | _ => dom "cfg fields"
+
+def parseHdrs (s : String) : E (List (Bytes × Bytes)) :=
+  if s == "-" then pure []
+  else (s.splitOn "+").mapM fun kv =>
+    match kv.splitOn "=" with
+    | [k, v] => do pure (← pHex k "header name", ← pHex v "header value")
+    | _ => dom "header pair"
+
+def hasCRLF (v : Bytes) : Bool := v.any fun c => c == 13 || c == 10
+def trimmed (v : Bytes) : Bool := v.head? != some 32 && v.getLast? != some 32 && v.head? != some 9 && v.getLast? != some 9
+
+def parseOp (d : DCfg) (s : String) : E DOp := do
+  match s.splitOn ";" with
+  | [grp, dt, me, km, cc, inv, skip, eg, st, body, ct, ce, hs, hd] =>
+    let method ← pHex me "method"
+    if !okMethods.contains method then dom "method"
+    let keyMat ← pHex km "keyMat"
+    if keyMat.isEmpty || keyMat.any (fun c => c == 63 || c == 35 || c == 32 || c == 13 || c == 10) then dom "keyMat"
+    if !d.kg && keyMat.head? != some 47 then dom "keyMat must be a path"
+    let cc ← pHex cc "cc"
+    let ct ← pHex ct "ctype"
+    let ce ← pHex ce "cenc"
+    if hasCRLF cc || hasCRLF ct || hasCRLF ce || !trimmed ct then dom "header value"
+    let inv ← pBit inv "inv"
+    let skip ← pBit skip "skip"
+    let expGen ← if eg == "n" then pure none else (some <$> pNat eg "expGen")
+    if d.eg != expGen.isSome || (!d.iv && inv) || (!d.nx && skip) then dom "callback flags"
+    let status ← pNat st "status"
+    let dt ← pNat dt "dt"
+    let hd ← pNat hd "hdelay"
+    if dt > 100 || hd > 10 || status < 100 || status > 599 then dom "op range"
+    let hs ← parseHdrs hs
+    if !hs.all (fun p => hdrVocab.contains p.1 && !hasCRLF p.2 && !p.2.isEmpty && trimmed p.2) then dom "header"
+    if !(hs.map (·.1)).eraseDups.length == hs.length then dom "duplicate header"
+    let grp ← pNat grp "grp"
+    if grp != 0 && (!d.kg || hd != 0) then dom "concurrent op"
+    pure { grp := grp, dt := dt, hdelay := hd,
+           req := { method := method, keyMat := keyMat, cc := cc, inv := inv, skip := skip, expGen := expGen,
+                    resp := { status := status, body := ← pHex body "body", ctype := ct, cenc := ce, headers := hs } } }
+  | _ => dom "op fields"
+
+def parseScheds (s : String) : E (List (Nat × List Nat)) :=
+  if s == "-" then pure []
+  else (s.splitOn "/").mapM fun e =>
+    match e.splitOn ":" with
+    | [g, ts] => do pure (← pNat g "sched group", ← if ts == "" then pure [] else (ts.splitOn ".").mapM (pNat · "sched tid"))
+    | _ => dom "sched"
+
+/-- groups must be contiguous, ≤ 4 threads, `dt = 0` inside; schedules refer to existing threads -/
+def checkGroups (ops : List DOp) (scheds : List (Nat × List Nat)) : E Unit := do
+  let rec go (last : Nat) (seen : List Nat) : List DOp → E Unit
+    | [] => pure ()
+    | o :: rest =>
+      if o.grp != 0 && o.grp != last && seen.contains o.grp then dom "group not contiguous"
+      else if o.grp != 0 && o.grp == last && o.dt != 0 then dom "dt inside group"
+      else go o.grp (if o.grp != 0 then o.grp :: seen else seen) rest
+  go 0 [] ops
+  for (g, ts) in scheds do
+    let n := (ops.filter (·.grp == g)).length
+    if g == 0 || n == 0 || ts.length > 64 || !ts.all (· < n) then dom "sched"
+  if !((scheds.map (·.1)).eraseDups.length == scheds.length) then dom "duplicate sched"
+  for o in ops do
+    if o.grp != 0 && (ops.filter (·.grp == o.grp)).length > 4 then dom "group size"
+
+/-! ### observation rendering / parsing -/
+
+def xStr : XCache → String
+  | .absent => "n" | .hit => "h" | .miss => "m" | .unreachable => "u"
+
+def hdrsField (hs : List (Bytes × Bytes)) : String :=
+  if hs.isEmpty then "-" else "+".intercalate ((sortHdrs hs).map fun p => toHexField p.1 ++ "=" ++ toHexField p.2)
+
+def renderOut (o : Out) (ran : Bool) (held : Option Nat) : String :=
+  ";".intercalate [xStr o.xcache, toString o.status, toHexField o.body, toHexField o.ctype, toHexField o.cenc,
+    hdrsField o.headers, if ran then "1" else "0", match held with | some h => toString h | none => "-"]
+
+def parseObs (s : String) : Option Obs :=
+  if s == "panic" then some .panic
+  else if s == "deadlock" then some .deadlock
+  else if s == "skipped" then some .skipped
+  else match s.splitOn ";" with
+    | [x, st, body, ct, ce, hs, ran, held] => do
+      let xc ← match x with
+        | "n" => some XCache.absent | "h" => some .hit | "m" => some .miss | "u" => some .unreachable | _ => none
+      let hs ← match parseHdrs hs with | .ok v => some v | .error _ => none
+      let held ← if held == "-" then some none else held.toNat?.map some
+      some (.resp { xcache := xc, status := ← st.toNat?, body := ← fromHex body, ctype := ← fromHex ct,
+                    cenc := ← fromHex ce, headers := hs } (ran == "1") held)
+    | _ => none
+
+/-! ### running the model -/
+
+def T0 : Nat := 1257894000     -- faketime's epoch (2009-11-10 23:00:00 UTC); only differences matter
+
+def tick (g : G) (d : Nat) : G := { g with ts := g.ts + d, uts := g.uts + d }
+
+def pcOf (g : G) (t : Nat) : Pc := match g.threads[t]? with | some th => th.pc | none => .done
+
+def parked : Pc → Bool
+  | .wantLock1 | .bypass _ | .next | .done | .panicked => true
+  | _ => false
+
+/-- step thread `t` until `stop` holds for its pc or it cannot move (fuel 10 ≥ the 8 steps of a thread) -/
+def stepUntil (cfg : Config) (stop : Pc → Bool) : Nat → G → Nat → G
+  | 0, g, _ => g
+  | f + 1, g, t =>
+    match step cfg g t with
+    | none => g
+    | some g' => if stop (pcOf g' t) then g' else stepUntil cfg stop f g' t
+
+/-- one release of a thread by the scheduler: run from one yield point to the next -/
+def release (cfg : Config) (g : G) (t : Nat) : G := stepUntil cfg parked 10 g t
+
+def finished (g : G) (t : Nat) : Bool := pcOf g t == .done || pcOf g t == .panicked
+
+def heldOf (cfg : Config) (g : G) : Option Nat := if cfg.ext then some (g.sh.store.held g.uts) else none
+
+def obsOf (cfg : Config) (g : G) (t : Nat) : String :=
+  match g.threads[t]? with
+  | none => "skipped"
+  | some th =>
+    match th.pc, th.out with
+    | .panicked, _ => "panic"
+    | .done, some o => renderOut o th.ran (heldOf cfg g)
+    | _, _ => "deadlock"
+
+/-- branch tags of one sequential op, from the model states before (after the clock tick) and after it -/
+def opTags (cfg : Config) (pre post : G) (q : Req) : List String :=
+  let key := mkKey q
+  let looks := !cfg.disabled && !hasDirective q.cc Facts.noStore && cfg.effMethods.contains q.method
+  let found := pre.sh.store.get key pre.uts
+  (match found with
+   | some e => if !looks then [] else if q.inv then ["invalidated"] else if e.exp ≤ pre.ts then ["cache-expired"]
+               else if hasDirective q.cc Facts.noCache then ["nocache-refresh"] else []
+   | none => []) ++
+  (match pre.sh.store.lookup key with
+   | some sl => if looks && sl.expired pre.uts then ["storage-expired"] else []
+   | none => []) ++
+  (if pre.sh.store.any (fun p => p.1 != key && (post.sh.store.lookup p.1).isNone) then ["evicted"] else []) ++
+  (if post.sh.heap.live.length > post.sh.store.length then ["ghost-entry"] else []) ++
+  (if !post.sh.heap.dead.isEmpty then ["index-parked"] else [])
+
+/-- run the history; returns the model's observation per op and the branch tags seen -/
+def runModel (cfg : Config) (ops : List DOp) (scheds : List (Nat × List Nat)) : List String × List String := Id.run do
+  let mut g := G.init T0 T0 (ops.map (·.req))
+  let mut out : Array String := #[]
+  let mut tags : List String := []
+  let mut dead := false
+  let arr := ops.toArray
+  let mut i := 0
+  while i < arr.size do
+    let o := arr[i]!
+    if dead then
+      out := out.push "skipped"; i := i + 1
+    else
+      g := tick g o.dt
+      if o.grp == 0 then
+        let pre := g
+        g := stepUntil cfg (fun pc => pc == .afterNext || pc == .done || pc == .panicked) 10 g i
+        -- the origin handler sleeps `hdelay` seconds (only when it is invoked)
+        if (g.threads[i]?.map (·.ran)).getD false then g := tick g o.hdelay
+        if pcOf g i == .afterNext then
+          g := stepUntil cfg (fun pc => pc == .done || pc == .panicked) 10 g i
+        for tg in opTags cfg pre g o.req do
+          if !tags.contains tg then tags := tg :: tags
+        let s := obsOf cfg g i
+        if s == "deadlock" then dead := true
+        out := out.push s
+        i := i + 1
+      else
+        let n := ((arr.toList.drop i).takeWhile (·.grp == o.grp)).length
+        let sched := ((scheds.find? (·.1 == o.grp)).map (·.2)).getD []
+        for t in sched do
+          g := release cfg g (i + t)
+        -- drain: lowest unfinished thread first
+        for _ in [0:4 * n + 4] do
+          match (List.range n).find? (fun t => !finished g (i + t)) with
+          | some t => g := release cfg g (i + t)
+          | none => pure ()
+        if g.sh.heap.live.length > g.sh.store.length && !tags.contains "ghost-entry" then tags := "ghost-entry" :: tags
+        for t in [0:n] do
+          let s := obsOf cfg g (i + t)
+          if s == "deadlock" then dead := true
+          out := out.push s
+        i := i + n
+  return (out.toList, tags)
+
+def mkRecs (ops : List DOp) (obs : List Obs) : List OpRec := Id.run do
+  let mut t := T0
+  let mut recs : Array OpRec := #[]
+  let mut lastGrp := 0
+  let mut idx := 0
+  for (o, ob) in ops.zip obs do
+    if o.grp == 0 || o.grp != lastGrp then t := t + o.dt
+    let ran := match ob with | .resp _ r _ => r | _ => false
+    let hd := if ran then o.hdelay else 0      -- the handler's delay only passes when it is invoked
+    recs := recs.push { idx := idx, req := o.req, grp := o.grp, t0 := t, t1 := t + hd, obs := ob }
+    t := t + hd
+    lastGrp := o.grp
+    idx := idx + 1
+  return recs.toList
+
+def handleCase (f : List String) : Except String Verdict := do
+  match f with
+  | [id, cfgS, methods, opsS, schedS, impl] =>
+    let d ← parseCfg cfgS methods
+    let ops ← (opsS.splitOn "|").mapM (parseOp d)
+    if ops.isEmpty || ops.length > 40 then dom "ops"
+    let scheds ← parseScheds schedS
+    checkGroups ops scheds
+    let cfg := d.cfg
+    let (mo, mtags) := runModel cfg ops scheds
+    let modelObs := "|".intercalate mo
+    let implParts := impl.splitOn "|"
+    let spec : Option String :=
+      if implParts.length != ops.length then some "unparsable-observation"
+      else match implParts.mapM parseObs with
+        | none => some "unparsable-observation"
+        | some obs => specViolation cfg (mkRecs ops obs)
+    -- branch tags from the model's run
+    let has (p : String → Bool) := mo.any p
+    let tags :=
+      (if ops.any (·.grp != 0) then ["conc"] else ["seq"]) ++
+      (if cfg.ext then ["ext"] else ["mem"]) ++
+      (if has (·.startsWith "h;") then ["hit"] else []) ++
+      (if has (·.startsWith "m;") then ["miss"] else []) ++
+      (if has (·.startsWith "u;") then ["unreachable"] else []) ++
+      (if has (·.startsWith "n;") then ["bypass"] else []) ++
+      (if cfg.maxBytes > 0 then ["maxbytes"] else []) ++
+      mtags ++
+      (if has (·.startsWith "h;") && has (·.startsWith "m;") then ["nt"] else [])
+    pure { id := id, modelObs := modelObs, implObs := impl, spec := spec, tags := tags }
+  | _ => dom s!"expected 6 fields, got {f.length}"
+
+def main : IO Unit := run handleCase
